@@ -100,9 +100,18 @@ impl Dump for darling::util::PathList {
     }
 }
 
+/// (syn prints nothing for a `where` without predicates; the receiver was still handed a clause)
+fn where_text(w: &Option<syn::WhereClause>) -> String {
+    match w {
+        None => String::new(),
+        Some(w) if w.predicates.is_empty() => canon_of(&w.where_token),
+        Some(w) => canon_of(w),
+    }
+}
+
 impl Dump for syn::Generics {
     fn dump(&self) -> Value {
-        json!({ "tokens": canon_of(self), "where": self.where_clause.as_ref().map(canon_of).unwrap_or_default() })
+        json!({ "tokens": canon_of(self), "where": where_text(&self.where_clause) })
     }
 }
 
@@ -136,7 +145,7 @@ pub fn dump_tp_generics<T: Dump>(g: &darling::ast::Generics<darling::ast::Generi
             darling::ast::GenericParam::Const(c) => json!({ "const": canon_of(c) }),
         })
         .collect();
-    json!({ "params": params, "where": g.where_clause.as_ref().map(canon_of).unwrap_or_default() })
+    json!({ "params": params, "where": where_text(&g.where_clause) })
 }
 
 impl<V: Dump, F: Dump> Dump for darling::ast::Data<V, F> {
